@@ -419,9 +419,10 @@ func patternWithoutTrailingGlob(p *patternmatcher.Pattern) string {
 	// We use filepath.Separator here because patternmatcher.Pattern patterns
 	// get transformed to use the native path separator:
 	// https://github.com/moby/patternmatcher/blob/130b41bafc16209dc1b52a103fdac1decad04f1a/patternmatcher.go#L52
-	patStr = strings.TrimSuffix(patStr, string(filepath.Separator)+"**")
-	patStr = strings.TrimSuffix(patStr, string(filepath.Separator)+"*")
-	return patStr
+	if s := strings.TrimSuffix(patStr, string(filepath.Separator)+"**"); s != patStr {
+		return s
+	}
+	return strings.TrimSuffix(patStr, string(filepath.Separator)+"*")
 }
 
 func isNotExist(err error) bool {
